@@ -6,7 +6,7 @@ globals().update(
         pid="C04",
         props=["JaqalProofs/Props/C04.lean", "JaqalProofs/Props/ParsedC04.lean"],
         targets=["JaqalProofs.Props.C04", "JaqalProofs.Props.ParsedC04"],
-        diffs=[("harness.agents.pass1_diff", 700, 6000), ("harness.agents.c04_entry", 60, 60), ("harness.agents.c04_scale", 20, 20)],
+        diffs=[("harness.agents.pass1_diff", 700, 6000), ("harness.agents.c04_entry", 60, 60), ("harness.agents.c04_scale", 20, 20), ("harness.agents.c04_traps", 400, 400)],
         trusted=[
             STD_TRUST,
             "hand-written model JaqalModel/Model/ExpandMacros.lean of MacroExpander / replace_gate / GateReplacer on the by-value IR (JaqalModel/Model/Ir.lean); specification of gate-level meaning JaqalModel/Spec/Sem.lean (registers denote lists of fundamental qubits, macro calls by substitution, same-kind nested blocks spliced), written independently of the library's resolution and expansion code",
